@@ -172,6 +172,56 @@ def corr_covariance(res, tier, rng):
                          "hypotheses of `covariance` are not met by the Bath's transform" % e_model, desc)
 
 
+def relations(res, rng):
+    """always-run relations between real runs under a change of basis:
+    (a) parameters guessed by the library (guess_tempo_parameters) do not depend on the basis;
+    (b) a process tensor for a rotated problem may be contracted more than once."""
+    import warnings
+    import oqupy
+    from oqupy import operators as op
+    from . import cases
+    d = 3
+    h = cases.rand_herm(rng, d, 1.0)
+    o = np.diag([1.0, 0.0, -0.5]).astype(complex)
+    corr = oqupy.PowerLawSD(alpha=0.1, zeta=1.0, cutoff=4.0, cutoff_type="exponential", temperature=0.2)
+    got = []
+    for k in range(3):
+        v = np.eye(d, dtype=complex) if k == 0 else cases.rand_unitary(rng, d)
+        ov = v @ o @ v.conj().T
+        with warnings.catch_warnings():
+            warnings.simplefilter("ignore")
+            par = oqupy.guess_tempo_parameters(bath=oqupy.Bath((ov + ov.conj().T) / 2, corr),
+                                               start_time=0.0, end_time=2.0,
+                                               system=oqupy.System(v @ h @ v.conj().T), tolerance=3e-3)
+        got.append((par.dt, par.dkmax))
+    res.case("relation:guess-parameters", True, {"(dt, dkmax) per basis": got})
+    if any(abs(g[0] - got[0][0]) > 1e-9 * got[0][0] or g[1] != got[0][1] for g in got[1:]):
+        res.fail("covariance:guess_tempo_parameters depends on the basis",
+                 {"api": "guess_tempo_parameters", "dt_dkmax_per_basis": got,
+                  "bases": "identity and two Haar unitaries, 3-level system"})
+    # (b)
+    v = cases.rand_unitary(rng, 2)
+    o2 = v @ (0.5 * op.sigma("z")) @ v.conj().T
+    bath = oqupy.Bath((o2 + o2.conj().T) / 2, corr)
+    sysm = oqupy.System(v @ (0.4 * op.sigma("x")) @ v.conj().T)
+    par = oqupy.TempoParameters(dt=0.1, epsrel=1e-9, dkmax=None)
+    rho = v @ op.spin_dm("y+") @ v.conj().T
+    ref = np.array(oqupy.Tempo(sysm, bath, par, rho, start_time=0.0).compute(
+        0.43, progress_type="silent").states)
+    pt = oqupy.pt_tempo_compute(bath=bath, start_time=0.0, end_time=0.43, parameters=par,
+                                progress_type="silent")
+    for use in (1, 2, 3):
+        st = np.array(oqupy.compute_dynamics(sysm, initial_state=rho, process_tensor=pt,
+                                             start_time=0.0, progress_type="silent").states)
+        err = float(np.abs(st - ref).max())
+        res.case("relation:pt-reuse:%d" % use, True, {"use": use, "difference_to_Tempo": err})
+        if err > 1e-6:
+            res.fail("covariance:PtTempo: process tensor of a rotated problem contracted a "
+                     "%s time" % {1: "first", 2: "second", 3: "third"}[use],
+                     {"api": "pt_tempo_compute + compute_dynamics", "use": use, "difference": err})
+            break
+
+
 def search(res):
     import oqupy
     from . import cases
@@ -249,6 +299,7 @@ def run(tier, seed, replay):
     try:
         corr_diag(res, tier, rng)
         corr_covariance(res, tier, rng)
+        relations(res, random.Random(seed + 55))
     except fw.Infra as e:
         res.oblige("correspondence run", False, str(e))
     return fw.finish(res, search)
